@@ -377,3 +377,50 @@ func ZoneDST(offsetSeconds int, dst bool) *time.Location {
 	}
 	return loc
 }
+
+// ZoneDST2 is ZoneDST with a second rule: the zone has the total offset offsetSeconds (DST flag dst) from the year
+// 1800 on and, if hasNext, the standard offset nextSeconds from the year 2200 on, so that for every instant 2000-2099
+// Time.ZoneBounds ends at an instant with the offset nextSeconds (or never). Natively a TZif version 2 image.
+func ZoneDST2(offsetSeconds int, dst bool, nextSeconds int, hasNext bool) *time.Location {
+	be32 := func(v uint32) []byte { return []byte{byte(v >> 24), byte(v >> 16), byte(v >> 8), byte(v)} }
+	be64 := func(v int64) []byte {
+		u := uint64(v)
+		return []byte{byte(u >> 56), byte(u >> 48), byte(u >> 40), byte(u >> 32), byte(u >> 24), byte(u >> 16), byte(u >> 8), byte(u)}
+	}
+	hdr := func(counts []uint32) []byte {
+		b := append([]byte("TZif2"), make([]byte, 15)...)
+		for _, n := range counts {
+			b = append(b, be32(n)...)
+		}
+		return b
+	}
+	ntime := uint32(1)
+	if hasNext {
+		ntime = 2
+	}
+	b := hdr([]uint32{0, 0, 0, 0, 0, 0})                  // empty version-1 block
+	b = append(b, hdr([]uint32{0, 0, 0, ntime, 2, 8})...) // isut isstd leap time type char
+	b = append(b, be64(-5364662400)...)                   // 1800-01-01
+	if hasNext {
+		b = append(b, be64(7258118400)...) // 2200-01-01
+	}
+	b = append(b, 0)
+	if hasNext {
+		b = append(b, 1)
+	}
+	d := byte(0)
+	if dst {
+		d = 1
+	}
+	b = append(b, be32(uint32(int32(offsetSeconds)))...)
+	b = append(b, d, 0)
+	b = append(b, be32(uint32(int32(nextSeconds)))...)
+	b = append(b, 0, 4)
+	b = append(b, 'D', 'S', 'T', 0, 'S', 'T', 'D', 0)
+	b = append(b, '\n', '\n')
+	loc, err := time.LoadLocationFromTZData("zone2", b)
+	if err != nil {
+		panic(err)
+	}
+	return loc
+}
